@@ -116,7 +116,8 @@ def trace_float_grid(repo, max_tick=20000):
                 if d == t:
                     continue
                 if d is None:
-                    k = "not-delivered"
+                    # due in the last replayed tick but pushed one tick further by the rounding of a / (1/tps): the recorded finding
+                    k = "late-by-rounding" if (want == horizon - 1 and (a / (1.0 / tps)) > want) else "not-delivered"
                 elif d < t:
                     k = "early"
                 elif d == t + 1 and (arr[i] / (1.0 / tps)) > t:
@@ -165,14 +166,17 @@ def trace_replay_random(repo, seed=0, n=300):
             k = None
             if want is not None and want < horizon:
                 if d is None:
-                    k = "not-delivered"
+                    # due in the last replayed tick but pushed one tick further by the rounding of a / (1/tps): the recorded finding
+                    k = "late-by-rounding" if (want == horizon - 1 and (a / (1.0 / tps)) > want) else "not-delivered"
                 elif d < want:
                     import math
                     k = "early-by-rounding" if (d == want - 1 and abs(a - d / tps) <= 4 * math.ulp(a)) else "early"
                 elif d > want:
                     k = "late-by-rounding" if (d == want + 1 and (a / (1.0 / tps)) > want) else "late"
             elif d is not None and want is not None and d < want:
-                k = "early"
+                import math
+                # the true tick lies beyond the replayed horizon but the pipeline came out inside it: same classification as above
+                k = "early-by-rounding" if (d == want - 1 and abs(a - d / tps) <= 4 * math.ulp(a)) else "early"
             if k:
                 kinds[k] = kinds.get(k, 0) + 1
                 first.setdefault(k, {"arrival": a, "ticks_per_second": tps, "first_tick_at_or_after": want, "delivered_tick": d})
